@@ -318,6 +318,14 @@ class Director:
                     await asyncio.sleep(0)
                 elif a[0] == "flush":
                     await self.flush()
+                elif a[0] == "shuffle":
+                    # another scheduler: permute the callbacks that are ready to run (the model
+                    # admits every order of enabled steps; asyncio itself runs them FIFO)
+                    loop = asyncio.get_event_loop()
+                    items = list(loop._ready)
+                    random.Random(a[1]).shuffle(items)
+                    loop._ready.clear()
+                    loop._ready.extend(items)
                 elif a[0] == "timer":
                     p = self.pending_timers()
                     if p:
@@ -597,8 +605,13 @@ def gen_schedule(rng, base_dir, k):
     prog = []
     extra = rng.randint(0, 6)
     style = rng.choice(["burst", "mixed", "mixed", "slow"])
+    nonfifo = rng.random() < 0.3
     while remaining or extra > 0:
         x = rng.random()
+        if nonfifo and rng.random() < 0.25:
+            prog.append(["shuffle", rng.randrange(1000)])
+            prog.append(["tick"])
+            continue
         if remaining and (x < {"burst": 0.75, "mixed": 0.4, "slow": 0.2}[style]):
             prog.append(["arrive", remaining.pop()])
         elif x < 0.6 + (0.0 if remaining else 0.0):
@@ -944,8 +957,11 @@ def run(tier, seed, replay=None):
                 for sig, what in oracle_trace(case, {"results": rr.get("results", {}), **{k: rr[k] for k in ("hang", "crash") if k in rr}}):
                     tviol.append((sig + ":realtime", what, case))
                 continue
+            shuffled = any(a[0] == "shuffle" for a in case.get("program", []))
             for sig, what in oracle_trace(case, r):
-                tviol.append((sig, what, case))
+                tviol.append((sig + (":shuffled-ready-queue" if shuffled else ""), what, case))
+            if shuffled:
+                tdist["nonfifo"] = tdist.get("nonfifo", 0) + 1
             if r.get("hang") or r.get("crash"):
                 continue
             if r.get("problems"):
@@ -1030,7 +1046,7 @@ def run(tier, seed, replay=None):
         "liveness under fairness only: every enabled step (timer expiry, model return, task step) eventually happens; real time not modelled",
         "cache stores are finite maps with get/set (in_memory: fresh per call as EmbeddingsCache.from_config builds it; filesystem: persistent; redis not available offline and not covered)",
         "asyncio internals (Task/Future wake-up, FIFO ready queue, the two helper tasks of asyncio.wait) are not modelled; the model admits every interleaving of enabled steps, the implementation is run under the real event loop",
-        "trace inclusion is checked on schedules produced by the harness director (arrivals, ticks, timer expiry, model return in any order); snapshot of _req_queue/_req_results/_req_idx/finished-is-None/submitted at every step boundary",
+        "trace inclusion is checked on schedules produced by the harness director (arrivals, ticks, timer expiry, model return in any order; in ~30% of the schedules the event loop's ready queue is additionally permuted at random points); snapshot of _req_queue/_req_results/_req_idx/finished-is-None/submitted at every step boundary",
     ]
     if tier == "thorough" and b["ok"]:
         ok, log = C.coqchk(PID, b["files"])
